@@ -813,8 +813,14 @@ func TestC17Sim(t *testing.T) {
 			return opts[t.Pick(label, len(opts))]
 		}
 		for i := 0; i < nf; i++ {
-			s.WriteSource(fmt.Sprintf("g%d/f%d.dat", t.Pick("group", conf.Groups), i), sizes("size"), time.Duration(10+nf-i)*time.Minute)
+			name := fmt.Sprintf("g%d/f%d.dat", t.Pick("group", conf.Groups), i)
+			s.WriteSource(name, sizes("size"), time.Duration(10+nf-i)*time.Minute)
+			if t.Weighted("symlink", 3, 1) == 1 {
+				s.LinkSource(name) // eligible like any other file (links to files are sent)
+				t.Class("symlink-to-file-as-source")
+			}
 		}
+		p.Faults = t.Bool("transportFaults")
 		// ineligible files: never transmitted, never deleted
 		inel := map[string][]byte{"g0/.hidden.dat": []byte("hidden"), "g0/work.dat.lck": []byte("locked"), "g0/empty.dat": {}, ".hdir/inside.dat": []byte("in hidden dir")}
 		for n, b := range inel {
@@ -831,7 +837,8 @@ func TestC17Sim(t *testing.T) {
 			switch t.Weighted("action", 10, 4, 3, 2) {
 			case 0:
 				if len(pend) > 0 {
-					s.Serve(pend[t.Pick("which", len(pend))], Fault{})
+					r := pend[t.Pick("which", len(pend))]
+					s.Serve(r, s.drawFault(t, r, p))
 				}
 			case 1:
 				time.Sleep(simWaits[t.Pick("wait", len(simWaits))])
